@@ -42,7 +42,17 @@ def run(prop, wd, thorough):
     if done is None or done['scripts'] != len(scripts):
         # a step the model cannot take: the model does not describe the harness' script any more
         print('MODEL-DRIFT: LifecycleTrace consumed %s of %d scripts' % (done and done['scripts'], len(scripts)))
-    cov = {'lifecycle_model_states': st['distinct'], 'lifecycle_model_transitions': st['generated'],
+    # the same discipline for unbounded handles / restarts / ticks: TLAPS
+    import subprocess, shutil, re
+    pdir = os.path.join(wd, 'lifecycle-proof')
+    shutil.rmtree(pdir, ignore_errors=True)
+    os.makedirs(pdir)
+    shutil.copy(os.path.join(SPEC, 'LifecycleProof.tla'), pdir)
+    pr = subprocess.run(['timeout', '900', 'tlapm', '--threads', '4', 'LifecycleProof.tla'], cwd=pdir, stdout=subprocess.PIPE, stderr=subprocess.STDOUT, text=True)
+    m = re.search(r'All (\d+) obligations? proved', pr.stdout)
+    if pr.returncode != 0 or not m:
+        die_tool('LifecycleProof.tla: TLAPS did not prove the inductive invariant (oracle defect)\n' + pr.stdout[-2000:])
+    cov = {'lifecycle_tlaps_obligations_proved': int(m.group(1)), 'lifecycle_model_states': st['distinct'], 'lifecycle_model_transitions': st['generated'],
            'lifecycle_scripts_replayed_on_impl': len(scripts), 'lifecycle_steps_validated': done['steps'] if done else 0,
            'lifecycle_model_invariant_violated': model_violated,
            'lifecycle_sample_script': scripts[len(scripts) // 2]['ops'] if scripts else []}
